@@ -411,6 +411,10 @@ func checkC13(c *Ctx, w *World) {
 	atoms := []atomDef{
 		boolAtom("exists", func(v ssa.Value) bool { return isExtractOf(stripConv(v), curLk, 1) }),
 		eqAtom("curRecovering", statusOf(isCur), constIs(m.recovering)),
+		eqAtom("curAvailable", statusOf(isCur), constIs(m.available)),
+		eqAtom("curUnavailable", statusOf(isCur), constIs(m.unavailable)),
+		eqAtom("elUnavailable", statusOf(isElem), constIs(m.unavailable)),
+		eqAtom("elRecovering", statusOf(isElem), constIs(m.recovering)),
 		eqAtom("topANil", isTopA, isNil),
 		ltAtom("curBetterThanTopA", prioOf(isCur), prioOf(isTopA)),
 		eqAtom("elAvailable", statusOf(isElem), constIs(m.available)),
@@ -424,11 +428,9 @@ func checkC13(c *Ctx, w *World) {
 		return
 	}
 	A := cs.Atom
-	for _, n := range atomNames(atoms...) {
-		if !cs.Seen(n) {
-			c.fail("C13.decision", "maybeUpdateCurrent tests "+n, p.pos(m.muc.Pos()), "the decision no longer tests '"+n+"'")
-		}
-	}
+	// closed status domain (C13.status "endpoint.status domain")
+	cs.ExactlyOne("curRecovering", "curAvailable", "curUnavailable")
+	cs.ExactlyOne("elAvailable", "elUnavailable", "elRecovering")
 	after := cs.OnlyNamed // loop variables are quantified away
 	early := cs.And(A("exists"), A("curRecovering"), cs.Or(A("topANil"), A("curBetterThanTopA")))
 	var sftCall *ssa.Call
@@ -443,7 +445,7 @@ func checkC13(c *Ctx, w *World) {
 	}
 	// project onto the post-loop atoms
 	post := func(b Bits) Bits {
-		for _, n := range []string{"elAvailable", "elBetterThanTopA", "topNil", "elBetterThanTop"} {
+		for _, n := range []string{"elAvailable", "elUnavailable", "elRecovering", "elBetterThanTopA", "topNil", "elBetterThanTop"} {
 			b = cs.exists(b, cs.idx["@"+n])
 		}
 		return after(b)
@@ -523,6 +525,10 @@ func checkC13(c *Ctx, w *World) {
 	}
 	checkAcc("topA", topA, cs.And(A("elAvailable"), cs.Or(A("topANil"), A("elBetterThanTopA"))), "it is available and (no candidate yet or it has strictly higher priority)")
 	checkAcc("top", top, cs.Or(A("topNil"), A("elBetterThanTop")), "no candidate yet or it has strictly higher priority")
+
+	// ---- C13.status: the decision clauses are stated over available / recovering / known-unavailable; the status
+	// variable must change only through the specified transitions for them to mean what the property says
+	statusRules(m, c, func(string) string { return "C13.status" })
 
 	// ---- C13.nonempty / C13.reject
 	checkNonEmpty(m)
